@@ -1,25 +1,27 @@
 (* C18 — Pruning never removes nodes of the current state tree.  Property theorems only.
 
-   What is proved (for every store, every list of store operations, unbounded sizes) concerns the
-   explicit node store of tree_store.rs (Model/C18_Store.v): what record_stale_tree_part removes is
-   exactly the named node resp. only nodes whose path extends the root path of the named subtree, so
-   a node that a commit neither re-inserts nor names as stale (directly or as part of a stale
-   subtree) survives the commit unchanged; with pruning disabled nothing is removed; nodes written
-   by a tier update carry the new version.
-   Second part (Proof/C18_Reach.v): for ONE tier tree (the entity, a partition or a substate tier
-   taken alone, node keys = version + local nibble path) and every batch / every history:
-   C18_reach_step_partial, C18_current_tree_intact_partial, C18_stale_dead_forever_partial.
-   Gap to the full statement: the lifting across tiers (nodes of a lower tier hang under the leaf of
-   the upper tier through the payload version; a leaf that is moved keeps its lower tier) and the
-   Subtree stale part of a partition Reset (pruned by a walk over the stored nodes).  That part is
-   established on every run by the harness oracles (walk from the current root through all three
-   tiers after every commit with pruning on; stale parts, subtrees expanded, unreachable from this
-   and all later roots with pruning off) and by the model/implementation comparison of stale
-   lists and store contents. *)
+   Model: Model/C17_Jmt.v (put_at_next_version producing the store operations of a commit in the
+   order the code issues them: insert_node, record_stale_tree_part Node / Subtree) replayed on the
+   explicit node store Model/C18_Store.v (immediate pruning: Node = remove that key, Subtree = walk
+   over the stored nodes; or recording in stale_part_buffer).  `reachable fuel st` = the nodes a reader
+   starting at the current root reaches through all three tiers.
+
+   Full statements (three tiers, every history of DatabaseUpdates, any initial store, pruning on or
+   off): C18_reach_step, C18_current_tree_intact, C18_stale_dead_forever.
+   `kills op k`: operation op removes key k when pruning is on: a stale Node names exactly k; a stale
+   Subtree (partition Reset) names a path that is a prefix of k's path (the walk over the stored
+   nodes only removes such keys: C18_prune_subtree_local).  So "k in reachable st, killed by an
+   operation of the commit" covers every node of the old tree below a stale subtree.
+   Hypotheses (visible): keys of each tier from a prefix-free universe of non-empty keys, nibbles
+   < 16, key lengths < fuel, entity / partition keys of one commit distinct (ok_commit); H never
+   returns the 32-zero-byte placeholder (otherwise a non-empty tier would be treated as empty).
+   Not a violation, stated here: Null roots of emptied lower tiers are inserted and never reported
+   stale (unreachable garbage). *)
 From Coq Require Import List NArith Bool.
 Import ListNotations.
 Require Import RV.Model.C17_Jmt RV.Model.C18_Store RV.Proof.C17_Base RV.Proof.C17_Update RV.Proof.C17_Tier
-               RV.Proof.C17_Root RV.Proof.C18_Store RV.Proof.C18_Reach.
+               RV.Proof.C17_Root RV.Proof.C17_Compose RV.Proof.C18_Store RV.Proof.C18_Reach RV.Proof.C18_Lift.
+Require Import RV.Model.C17_Smt.
 Open Scope N_scope.
 
 Theorem C18_prune_subtree_local : forall p0 fuel queue s s',
@@ -47,6 +49,79 @@ Theorem C18_keys_fresh_partial : forall A prefix ver (lg : log A) v p n,
   In (OpInsert v p n) (ops_of_log prefix ver lg) -> v = ver.
 Proof. exact tier_inserts_fresh. Qed.
 
+
+(* ================= the whole store: three tiers, every history ================= *)
+(* one commit: every node the new root reaches was inserted by this commit (new version) or was
+   reachable before and is killed by no operation of the commit; every operation is an insert with
+   the new version or a stale part with an older version / a path; an inserted node is not killed by
+   any later operation of the same commit *)
+Theorem C18_reach_step : forall H fuel, (0 < fuel)%nat -> (forall x, H x <> ZERO_HASH) ->
+  forall US UP UE, pfree US -> ~ US [] -> pfree UP -> ~ UP [] -> pfree UE -> ~ UE [] ->
+  forall st d u, db_rel H fuel US UP UE st d -> ok_commit fuel US UP UE u ->
+  vers_le (ver_of st) (reach_db fuel st) ->
+  exists root st' ops, put_at_next_version H fuel st u = Ok (root, st', ops) /\
+    db_rel H fuel US UP UE st' (apply_commit d u) /\ ver_of st' = ver_of st + 1 /\
+    step_facts [] (ver_of st + 1) ops (reach_db fuel st) (reach_db fuel st').
+Proof.
+  intros H fuel Hf HZ US UP UE PS S0 PP P0 PE E0 st d u DR OK VR.
+  exact (commit_facts H fuel Hf US UP UE PS S0 PP P0 PE E0 st d u HZ DR OK VR).
+Qed.
+Theorem C18_reach_db_is_reachable : forall fuel st k, In k (map fst (reachable fuel st)) <-> In k (reach_db fuel st).
+Proof. exact reachable_keys. Qed.
+
+(* after EVERY history, on any initial store, every node reachable from the current root is stored *)
+Theorem C18_current_tree_intact : forall H fuel, (0 < fuel)%nat -> (forall x, H x <> ZERO_HASH) ->
+  forall US UP UE, pfree US -> ~ US [] -> pfree UP -> ~ UP [] -> pfree UE -> ~ UE [] ->
+  forall us ts, Forall (ok_commit fuel US UP UE) us ->
+  exists stf tsf, run_db_store H fuel None ts us = Ok (stf, tsf) /\
+    db_rel H fuel US UP UE stf (apply_commits [] us) /\
+    forall e, In e (reachable fuel stf) -> st_get (fst e) (ts_nodes tsf) <> None.
+Proof.
+  intros H fuel Hf HZ US UP UE PS S0 PP P0 PE E0 us ts OK.
+  exact (intact_from_empty H fuel Hf US UP UE PS S0 PP P0 PE E0 us ts HZ OK).
+Qed.
+
+(* every part a commit reports stale is unreachable from the root of that commit and of every later one *)
+Theorem C18_stale_dead_forever : forall H fuel, (0 < fuel)%nat -> (forall x, H x <> ZERO_HASH) ->
+  forall US UP UE, pfree US -> ~ US [] -> pfree UP -> ~ UP [] -> pfree UE -> ~ UE [] ->
+  forall us1 u us2 ts,
+  Forall (ok_commit fuel US UP UE) us1 -> ok_commit fuel US UP UE u -> Forall (ok_commit fuel US UP UE) us2 ->
+  exists st ts1 root st1 ops ts2 stf tsf,
+    run_db_store H fuel None ts us1 = Ok (st, ts1) /\
+    put_at_next_version H fuel st u = Ok (root, st1, ops) /\ apply_ops ts1 ops = Ok ts2 /\
+    run_db_store H fuel st1 ts2 us2 = Ok (stf, tsf) /\
+    forall e op, In e (reachable fuel st) -> In op ops -> kills op (fst e) ->
+                 ~ In (fst e) (map fst (reachable fuel stf)).
+Proof.
+  intros H fuel Hf HZ US UP UE PS S0 PP P0 PE E0 us1 u us2 ts O1 Ou O2.
+  exact (stale_dead_from_empty H fuel Hf US UP UE PS S0 PP P0 PE E0 us1 u us2 ts HZ O1 Ou O2).
+Qed.
+
+(* run_db_store is put_at_next_version followed by the replay of its operations on the store *)
+Theorem C18_run_db_store_unfold : forall H fuel st ts u r,
+  run_db_store H fuel st ts (u :: r) =
+  match put_at_next_version H fuel st u with
+  | Ok (_, st', ops) => match apply_ops ts ops with
+                        | Ok ts' => run_db_store H fuel st' ts' r | Panic => Panic | OutOfFuel => OutOfFuel end
+  | Panic => Panic | OutOfFuel => OutOfFuel
+  end.
+Proof. reflexivity. Qed.
+
+(* non-vacuity of the three-tier theorems: the history of C17_nonvacuous_db (two entities, a delete that
+   collapses a tier, a partition Reset to empty, an empty delta) replayed on a pruning store: the run
+   succeeds, every reachable node is stored, and the store holds the reachable nodes plus the
+   leaked Null roots of the emptied tiers *)
+Example C18_nonvacuous_db :
+  let H := fun l : list N => 1 :: l in
+  let us : list db_updates :=
+      [[([1;2;3;4], [([0;6], Delta [([1;2], Some [30]); ([1;3], Some [31])])]);
+        ([1;2;3;5], [([0;6], Delta [([1;2], Some [5])]); ([0;7], Delta [])])];
+       [([1;2;3;4], [([0;6], Delta [([1;2], None); ([1;3], Some [32])])]);
+        ([1;2;3;5], [([0;6], Reset [])])]] in
+  exists stf tsf, run_db_store H 9 None (ts_new true) us = Ok (stf, tsf) /\
+    forallb (fun e => match st_get (fst e) (ts_nodes tsf) with Some _ => true | None => false end) (reachable 9 stf) = true /\
+    (length (reachable 9 stf), length (ts_nodes tsf)) = (3%nat, 6%nat).
+Proof. cbv zeta. eexists. eexists. split; [vm_compute; reflexivity|]. split; vm_compute; reflexivity. Qed.
 
 (* ---- one tier tree ---- *)
 (* reach root = keys (version, path) of all nodes the root refers to; new_keys / l_stale = what the
@@ -96,6 +171,9 @@ Example C18_nonvacuous :
               map fst (ts_nodes t'') = [(1, []); (1, [5; 15])].
 Proof. cbv zeta. eexists. split; [vm_compute; reflexivity|]. split; [reflexivity|]. eexists. split; vm_compute; reflexivity. Qed.
 
+Print Assumptions C18_reach_step.
+Print Assumptions C18_current_tree_intact.
+Print Assumptions C18_stale_dead_forever.
 Print Assumptions C18_reach_step_partial.
 Print Assumptions C18_current_tree_intact_partial.
 Print Assumptions C18_untouched_nodes_survive.
